@@ -155,6 +155,9 @@ func (r *Run) Violation(sig string, what string, replay any) {
 		return // one line per signature, at most 8 signatures
 	}
 	r.violSigs[sig] = true
+	if lz, ok := replay.(LazyReplay); ok {
+		replay = lz()
+	}
 	body := map[string]any{"property": r.ID, "signature": sig, "what": what, "seed": r.Seed, "tier": r.Tier, "replay": replay}
 	b, _ := json.MarshalIndent(body, "", " ")
 	h := sha256.Sum256(b)
@@ -165,6 +168,9 @@ func (r *Run) Violation(sig string, what string, replay any) {
 	fmt.Printf("VIOLATION property=%s replay=%s\n", r.ID, path)
 	fmt.Printf("  %s: %s\n", sig, what)
 }
+
+// LazyReplay builds the replay record only when a violation is really written.
+type LazyReplay func() any
 
 func (r *Run) Violations() int {
 	r.mu.Lock()
